@@ -31,6 +31,7 @@ class Explorer:
                 self.enum_variants[p] = [v["name"] for v in a["variants"]]
         self.pure = pure_calls or ("contains_key", "has_node", "eq", "ne", "is_ok", "is_err", "is_some", "is_none", "is_nan", "is_empty", "gt", "lt", "ge", "le")
         self.truncated = False
+        self.exit_vals = []
         self._field_enum = {}
 
     # ---- atoms
@@ -60,8 +61,30 @@ class Explorer:
                 return ("not", o.place)
             return None
         if rv.k == "binop" and rv.j["op"] in ("Lt", "Le", "Gt", "Ge", "Eq", "Ne"):
-            d = ("binop", rv.j["op"], norm(fl.describe(rv.ops[0], depth=8)), norm(fl.describe(rv.ops[1], depth=8)))
-            return ("atom", fmt_desc(d), False)
+            # one key per comparison however it is written: operands in a fixed order (`a > b` is `b < a`),
+            # `!=` as the negation of `==`, `<=` as the negation of `>`
+            op = rv.j["op"]
+            x, y = norm(fl.describe(rv.ops[0], depth=8)), norm(fl.describe(rv.ops[1], depth=8))
+            neg = False
+            if op == "Ne":
+                op, neg = "Eq", True
+            elif op == "Le":
+                op, neg = "Gt", True
+            elif op == "Ge":
+                op, neg = "Lt", True
+            if op == "Eq":
+                # `flag == false` is `!flag`
+                for (a_, c_) in ((x, y), (y, x)):
+                    if isinstance(c_, tuple) and c_[0] == "const" and c_[1].split()[-1] in ("true", "false") and isinstance(a_, tuple) and a_[0] in ("place", "call"):
+                        return ("atom", fmt_desc(a_), neg != (c_[1].split()[-1] == "false"))
+            if fmt_desc(x) > fmt_desc(y):
+                x, y = y, x
+                op = {"Lt": "Gt", "Gt": "Lt"}.get(op, op)
+            if op == "Lt":
+                # canonical form uses Gt with swapped operands
+                x, y, op = y, x, "Gt"
+            d = ("binop", op, x, y)
+            return ("atom", fmt_desc(d), neg)
         if rv.k == "discr":
             fp = fl.field_path(rv.place)
             ep = self._enum_path(rv.place.ty)
@@ -146,7 +169,13 @@ class Explorer:
                     if ek is not None:
                         bd[l] = ("enumeq", ek[0], ek[1], nm == "ne")
                     else:
-                        bd[l] = ("atom", fmt_desc(d), False)
+                        # is_err(x) is !is_ok(x), is_none(x) is !is_some(x), ne is !eq: one key for both spellings
+                        neg = False
+                        flip = {"is_err": "is_ok", "is_none": "is_some", "ne": "eq"}
+                        if d[0] == "call" and nm in flip:
+                            d = ("call", d[1][: -len(nm)] + flip[nm], d[2])
+                            neg = True
+                        bd[l] = ("atom", fmt_desc(d), neg)
                 else:
                     bd.pop(l, None)
             succs = b.succ(bb)
@@ -217,6 +246,8 @@ class Explorer:
             else:
                 if not succs:
                     exits.append((bb, frozenset(fd.items()), marks2))
+                    # symbolic value of the return place on this path (const / atom), for truth tables
+                    self.exit_vals.append((bb, frozenset(fd.items()), bd.get(0)))
                 for s_ in succs:
                     st = (s_, frozenset(fd.items()), frozenset(bd.items()), marks2)
                     if st not in seen:
